@@ -51,6 +51,13 @@ def drawSpec (mean variance : α) (source : List α) (k : Nat) : Option (List α
 def mvEntry (mean : List α) (L : Matrix α) (z : List α) (i : Nat) : α :=
   mean.getD i 0 + (List.range mean.length).foldl (fun acc k => acc + get L i k * z.getD k 0) 0
 
+/-- the `s`-th chunk of `2⌈n/2⌉` source numbers -/
+def chunk (source : List α) (n s : Nat) : List α := (source.drop (s * needed n)).take (needed n)
+
+/-- the standard normals of sample row `s` -/
+def rowNormals (source : List α) (n s : Nat) : List α :=
+  (drawSpec (0 : α) (1 : α) (chunk source n s) n).getD []
+
 def mvSpec [NumOrd α] (mean : List α) (covariance : Matrix α) (source : List α) (samples : Nat)
     (sameNames : Bool) : Option (Matrix α) :=
   let n := mean.length
@@ -59,11 +66,7 @@ def mvSpec [NumOrd α] (mean : List α) (covariance : Matrix α) (source : List 
     | none => none
     | some L =>
       if source.length < samples * needed n then none
-      else
-        some ⟨(List.range samples).flatMap (fun s =>
-            let chunk := (source.drop (s * needed n)).take (needed n)
-            let z := (drawSpec (0 : α) (1 : α) chunk n).getD []
-            (List.range n).map fun i => mvEntry mean L z i), samples, n⟩
+      else some (ofFn samples n fun s i => mvEntry mean L (rowNormals source n s) i)
 
 /-- numbers taken by a multivariate draw -/
 def mvConsumed [NumOrd α] (mean : List α) (covariance : Matrix α) (len samples : Nat)
